@@ -82,7 +82,8 @@ func TestC08Convergence(t *testing.T) {
 	kinds := []string{"sessions", "subscriptions", "retained", "mixed"}
 	// +-25 = 2.5 ticks (never coincides with the other clock); +-10 = exactly one tick: B's clock then reads
 	// exactly the stamp A just used, only meaningful with synchronised origins (otherwise a genuine tie)
-	offsets := []int64{0, -25, 25, -10, 10}
+	const hourAhead = int64(3_600_000_000_005) // B's clock one hour ahead of A's (the stamps are nanoseconds in production)
+	offsets := []int64{0, -25, 25, -10, 10, hourAhead}
 	shardedPhase(t, "C08", "C08/convergence", "E1-enum", "TestC08Convergence", func(sh vk.Shard, rep *vk.Report) {
 		dInstallClock()
 		deadline := vk.Deadline(200e9, 1500e9)
@@ -109,6 +110,9 @@ func TestC08Convergence(t *testing.T) {
 					for n := 1; n <= maxU; n++ {
 						if (off == -10 || off == 10) && n > 4 {
 							continue
+						}
+						if off == hourAhead && n > 3 {
+							continue // the far-apart clocks are explored up to three updates (cost)
 						}
 						if n == 5 && (off != 0 && !syncMode) {
 							continue // largest size: skew only with synchronised origins (cost)
@@ -239,7 +243,7 @@ func TestC08Convergence(t *testing.T) {
 		rep.Bounds["kinds"] = kinds
 		rep.Bounds["clock_offsets_of_B_in_tenths_of_a_tick"] = offsets
 		rep.Bounds["delivery"] = "every permutation x every contiguous batching, plus every permutation followed by one duplicated update"
-		rep.Rule = "U = broadcasts queued by a script of real mutator calls on origins A and B (B's clock offset by 0 / -2.5 / +2.5 ticks; origins synchronised after each call or only at the end); every delivery schedule to a fresh replica; states = distinct replica listings; non-trivial = distinct (script, result) with >= 3 updates"
+		rep.Rule = "U = broadcasts queued by a script of real mutator calls on origins A and B (B's clock offset by 0 / -2.5 / +2.5 ticks, or one hour ahead; origins synchronised after each call or only at the end); every delivery schedule to a fresh replica; states = distinct replica listings; non-trivial = distinct (script, result) with >= 3 updates"
 		rep.Floor("merges_changed", 100, int64(rep.Extra["merges_that_changed_state"].(float64)))
 		rep.Floor("merges_rejected", 100, int64(rep.Extra["merges_that_changed_nothing"].(float64)))
 	})
